@@ -71,8 +71,14 @@ func c05dParse(data []byte) (entries []string, err error) {
 		return nil, fmt.Errorf("decoding: %w", err)
 	}
 	var extra json.RawMessage
+	docEnd := dec.InputOffset()
 	if err = dec.Decode(&extra); err != io.EOF {
-		return nil, fmt.Errorf("data after the document (offset %d of %d): %q", dec.InputOffset(), len(data), c05dClip(data[dec.InputOffset():]))
+		what := "another JSON value"
+		if err != nil {
+			what = err.Error()
+		}
+
+		return nil, fmt.Errorf("data after the document, which ends at offset %d of %d (%s): %q", docEnd, len(data), what, c05dClip(data[docEnd:]))
 	}
 	if f.Version == nil || *f.Version != dataVersion {
 		return nil, fmt.Errorf("version field missing or wrong")
